@@ -88,10 +88,10 @@ GraphsOK == gok
 \* ---- cases for the harness: graphs drawn by seed -> inlined sheet -> winners
 GInput == ndJsonDeserialize("cssimp_in.ndjson")
 GCase(k) == Bind(Inline(GInput[k].files, GInput[k].entry), LAMBDA sh : CaseOf(GInput[k].id, sh) @@ [items |-> sh])
-\* one run does both: the family above (gi < 0 -> 1..) and the harness's graphs (gi = 1000 + k)
-BInit == IInit \/ (gi \in {1000 + k : k \in 1..Len(GInput)} /\ gok = TRUE /\ gen_i = 0 /\ gen_out = FALSE)
+\* one run does both: the family above (gi < 0 -> 1..) and the harness's graphs (gi = 100000 + k)
+BInit == IInit \/ (gi \in {100000 + k : k \in 1..Len(GInput)} /\ gok = TRUE /\ gen_i = 0 /\ gen_out = FALSE)
 BNext == \/ INext
-         \/ /\ gi > 1000 /\ ~gen_out /\ gen_out' = TRUE /\ UNCHANGED <<gi, gok, gen_i>>
-            /\ PrintT(<<"CASE", ToJson(GCase(gi - 1000))>>)
+         \/ /\ gi > 100000 /\ ~gen_out /\ gen_out' = TRUE /\ UNCHANGED <<gi, gok, gen_i>>
+            /\ PrintT(<<"CASE", ToJson(GCase(gi - 100000))>>)
 BSpec == BInit /\ [][BNext]_ivars
 =============================================================================
